@@ -112,6 +112,17 @@ pub fn cmd_run(a: &Args) -> i32 {
         ev["dec2"] = decode_nth(&schema, &two, 1);
         ev["enc_v"] = enc_v;
         ev["enc_u"] = enc_u;
+        // the schema-aware serde writer on the crate's own Decimal type (a top-level decimal): whatever it writes
+        // must be the same number in the underlying type's layout; refusing is not writing
+        ev["enc_s"] = match &val {
+            apache_avro::types::Value::Decimal(d) => enc_result(guarded(std::panic::AssertUnwindSafe(|| {
+                let w = GenericDatumWriter::builder(&schema).build().map_err(|e| e.to_string())?;
+                let mut buf = Vec::new();
+                let n = w.write_ser(&mut buf, d).map_err(|e| e.to_string())?;
+                Ok((n, buf))
+            }))),
+            _ => json!({"ok":false,"panic":false,"wire":[],"n":0,"err":"not applicable"}),
+        };
         let mut lay = vec![];
         if let Some(ls) = scn.get("layouts").and_then(|l| l.as_array()) {
             for l in ls {
